@@ -67,9 +67,13 @@ CHECKS = {
         text="Ffi.tla: objects handed to C (request, action, body filter, buffer, header list, string, trusted proxies), the ownership transfer signature of every entry point (creates / consumes, the NULL variants their contracts allow, three release disciplines: library drop, release by the caller with the exact inverse of the allocation, never released) as actions; TLC enumerates all call sequences up to 4 (quick) / 6 (thorough) calls over payload classes. The harness is the C caller: it executes each sequence through the real extern \"C\" symbols in a child process under a recording #[global_allocator], then releases everything still owned. TLC audits on the recorded trace every allocator event (deallocation of a live pointer with exactly its allocation layout, no double free), Quiesce (no allocation of the sequence survives), the ownership ledger, NULL contracts and content relations with the native API (buffer bytes, header multiset, status, log decision, serialisations).",
         note="78 000 sequences / 470 000 events in the quick tier. Use-after-free reads are not observable in an event trace. Two genuine defects repaired (Buffer::duplicate panic = abort; buffers freed with size != allocation).",
         ref="DESIGN.md section 6, C18"),
+    "C19": dict(
+        text="Analysis.tla: the redirect-chain machine (layer I the loop as coded: request, status, Location joined to the current URL, 301/302 -> GET, loop test, domain cut-off, hop limit; layer P: |hops| <= max_hops + 1, Loop <=> the last hop repeats an earlier (url, method), hops follow the rules, the chain stops only for a reason). TLC explores every redirect graph x start x method x hop limit x domain setting; each is replayed as real rules through the explain analysis and TLC judges the recorded chain (zero drift against layer I). Project vs standalone: TLC enumerates RouterMachine histories inserts* ; fork(change-set) (added / updated / deleted); at the fork the harness runs explain, impact, test-examples and unit-ids from the existing router + change-set and from scratch on the resulting rule list in two orders, and drives the live pipeline by hand; TLC checks project = standalone, order independence, response = pipeline, existing router untouched.",
+        note="Outputs are compared through hashes of their projection on the observables the property lists. Two panics found here were repaired (invalid example address, host-less redirect target).",
+        ref="DESIGN.md section 6, C19"),
     "C17": dict(
         text="For every (router state, probe request) of the C01 and C02 universes (so also after removals, change-sets and cache warm-ups) the harness records the ids found in trace_request's tree, the priority of get_trace's final route and of get_route; TLC checks set(trace routes) = set(match) — the match itself being judged against Sat — and equal priorities.",
-        note="The per-step action trace (TraceAction) part of the property is exercised through the analysis checks (explain) — see C19. Bounded as C01/C02.",
+        note="The per-step action trace clause: on every probe of the project histories (inserts ; change-set) the last TraceAction::from_trace_rules step is compared with Action::from_routes_rule (distinct ranks). Bounded as C01/C02. One genuine defect repaired (route listed twice in the trace for overlapping ip constraints).",
         ref="DESIGN.md section 6, C17"),
     "C13": dict(
         text="TLC checks HeaderMachine.tla exhaustively (code-shaped operations imply the declarative ones for every header list <= MaxH and filter sequence <= MaxF over 3 names incl. a case variant, empty values, 5 operations + unknown); every enumerated behaviour is replayed into the real FilterHeaderAction and Action::filter_headers and the recorded trace is validated by TLC against the declarative layer.",
